@@ -131,6 +131,9 @@ class Lib:
                 return 'str_append(%s, %s)' % (P.addr(a0), self.as_sv(P, args[1]))
             if op in ('==', '!='):
                 return '(%ssv_eq(%s, %s))' % ('!' if op == '!=' else '', self.as_sv(P, a0), self.as_sv(P, args[1]))
+            if op in ('<', '>', '<=', '>=') and self.tr.category(P.ty(args[1])) in ('str', 'sv'):
+                # lexicographic order through std::string::compare (the model: 0 exactly for equal contents)
+                return '(sv_compare(%s, %s) %s 0)' % (self.as_sv(P, a0), self.as_sv(P, args[1]), op)
             if op == '+':
                 return 'str_concat(%s, %s)' % (self.as_sv(P, a0), self.as_sv(P, args[1]))
         if c0 in ('ptr', 'scalar') and op == '+' and len(args) == 2 and self.tr.category(P.ty(args[1])) == 'str':
